@@ -161,6 +161,7 @@ def showExn : Exn → String
   | .blocked => "blocked"
   | .unregistrable => "unregistrable"
   | .apiRaised => "raised"
+  | .inadmissible => "inadmissible"
 
 /-- run a machine action and report the new log entries -/
 def runM (cs : CoreSt) (m : M Unit) : CoreSt × String :=
